@@ -29,7 +29,13 @@ func replayKnown(eng *Engine, o *Oblig) (string, string, string, bool) {
 	path := filepath.Join(verifRoot(), "known_replays", fileSafe.ReplaceAllString(o.Name, "_")+".go")
 	data, err := os.ReadFile(path)
 	if err != nil {
-		return "", "", "", false
+		// inv-pres:...:name#2 (a second back edge of the same loop) shares the replay of ...:name
+		if k := strings.LastIndex(o.Name, "#"); k > 0 {
+			data, err = os.ReadFile(filepath.Join(verifRoot(), "known_replays", fileSafe.ReplaceAllString(o.Name[:k], "_")+".go"))
+		}
+		if err != nil {
+			return "", "", "", false
+		}
 	}
 	first, _, _ := strings.Cut(string(data), "\n")
 	if !strings.HasPrefix(first, "// pkg:") {
